@@ -830,7 +830,7 @@ func init() {
 			"the fee AMOUNT for non-base gas coins is taken from the tx.commission_amount tag (its correctness is C27's business); who pays it and in which coin is judged here",
 			"failed redemption attempts charge the issuer the failed-transaction fee (allowed by C05's statement; C03/C26 judge it)",
 		},
-		Quick: 56, Thorough: 1400, MinEval: 4000, MinDistinct: 60,
+		Quick: 56, Thorough: 560, MinEval: 4000, MinDistinct: 60,
 		Run: func(ctx *WorkCtx, idx int) {
 			r := Rng(ctx.Seed, "C21", idx)
 			sc := StdScenario(idx, r, 60)
